@@ -114,6 +114,8 @@ type Result struct {
 	Picks         []int     `json:"picks,omitempty"`
 	InvariantFail string    `json:"invariant_fail,omitempty"`
 	FakeSleeps    int       `json:"fake_sleeps,omitempty"`
+	Exited        bool      `json:"exited,omitempty"`    // a task called os.Exit / log.Fatal
+	ExitCode      int       `json:"exit_code,omitempty"` // its status
 	BubbleEnd     string    `json:"bubble_end,omitempty"`
 }
 
@@ -246,6 +248,18 @@ func Run(t *testing.T, opt Options, body func()) (res Result) {
 		sleeps := 0
 		for {
 			synctest.Wait()
+			if ex, code := simrt.ExitRequested(); ex && !mainSeen {
+				// some task called os.Exit / log.Fatal: the process is over
+				mainSeen = true
+				res.MainReturned = true
+				res.MainStep = res.Steps
+				res.Exited = true
+				res.ExitCode = code
+				if opt.OnMainReturn != nil {
+					opt.OnMainReturn(res.Steps)
+				}
+				break
+			}
 			if !mainSeen && main.State() == simrt.StFinished {
 				mainSeen = true
 				res.MainReturned = true
